@@ -186,6 +186,47 @@ theorem cancel_some {s s' : St} {caller id r rr : Nat} (h : cancel s caller id r
   cases h
   exact ⟨b, hb, by simpa using h1, by simpa using h2, by simpa using h3, rfl⟩
 
+/-- a successful batch cancel: the caller is a TIMELOCK_ADMIN; every listed buffer exists, belongs to the executor named
+by the call and records the rent receiver named by the call, and is closed; nothing else changes; no buffer twice. -/
+theorem cancelBatch_some {caller r rr : Nat} : ∀ (ids : List Nat) {s s' : St},
+    cancelBatch s caller r rr ids = some s' →
+    s.mem caller ADMIN = true ∧ s'.delay = s.delay ∧ s'.mem = s.mem ∧
+    (∀ id, id ∈ ids → ∃ b, s.bufs id = some b ∧ b.role = r ∧ b.rentReceiver = rr ∧ s'.bufs id = none) ∧
+    (∀ id, id ∉ ids → s'.bufs id = s.bufs id) ∧ ids.Nodup := by
+  intro ids
+  induction ids with
+  | nil =>
+    intro s s' h
+    simp only [cancelBatch] at h
+    split at h
+    · rename_i hm; cases h
+      exact ⟨hm, rfl, rfl, fun id hid => by simp at hid, fun _ _ => rfl, List.nodup_nil⟩
+    · cases h
+  | cons id ids ih =>
+    intro s s' h
+    simp only [cancelBatch] at h
+    rcases Option.eq_none_or_eq_some (cancel s caller id r rr) with ha | ⟨s1, ha⟩
+    · rw [ha] at h; cases h
+    · rw [ha] at h
+      obtain ⟨b, hb, hr, hrr, hm, rfl⟩ := cancel_some ha
+      obtain ⟨_, hd, hmem, hin, hout, hnd⟩ := ih h
+      have hnotin : id ∉ ids := by
+        intro hmem'
+        obtain ⟨b', hb', _⟩ := hin id hmem'
+        simp [bufs_setBuf] at hb'
+      refine ⟨hm, hd, hmem, ?_, ?_, List.nodup_cons.2 ⟨hnotin, hnd⟩⟩
+      · intro j hj
+        rcases List.mem_cons.1 hj with rfl | hj'
+        · exact ⟨b, hb, hr, hrr, by rw [hout j hnotin]; simp [bufs_setBuf]⟩
+        · obtain ⟨b', hb', rest⟩ := hin j hj'
+          have hne : j ≠ id := fun e => hnotin (e ▸ hj')
+          simp [bufs_setBuf, hne] at hb'
+          exact ⟨b', hb', rest⟩
+      · intro j hj
+        have hne : j ≠ id := fun e => hj (e ▸ List.mem_cons_self)
+        have hni : j ∉ ids := fun e => hj (List.mem_cons_of_mem _ e)
+        rw [hout j hni]; simp [bufs_setBuf, hne]
+
 theorem exec_some {s s' : St} {now : Int} {caller id r rr : Nat} {ix : Ix}
     (h : exec s now caller id r rr = some (s', ix)) :
     ∃ b a, s.bufs id = some b ∧ b.role = r ∧ b.rentReceiver = rr ∧ s.mem caller KEEPER = true ∧
@@ -268,6 +309,23 @@ theorem inv_step {s : St} (h : Inv s) (op : Op) : Inv (step s op).1 := by
     | some s' =>
       obtain ⟨b, _, _, _, _, rfl⟩ := cancel_some hc
       exact inv_setBuf_none h id
+  | cancelb now caller r rr ids =>
+    simp only [step]
+    cases hc : cancelBatch s caller r rr ids with
+    | none => exact h
+    | some s' =>
+      obtain ⟨_, _, _, hin, hout, _⟩ := cancelBatch_some ids hc
+      constructor
+      · intro i b' hb'
+        by_cases hi : i ∈ ids
+        · obtain ⟨b, _, _, _, hs'⟩ := hin i hi
+          rw [hs'] at hb'; cases hb'
+        · rw [hout i hi] at hb'; exact h.flag i b' hb'
+      · intro i b' hb'
+        by_cases hi : i ∈ ids
+        · obtain ⟨b, _, _, _, hs'⟩ := hin i hi
+          rw [hs'] at hb'; cases hb'
+        · rw [hout i hi] at hb'; exact h.signer i b' hb'
   | exec now caller id r rr =>
     simp only [step]
     cases hc : exec s now caller id r rr with
@@ -329,6 +387,11 @@ theorem delay_step (s : St) (op : Op) : s.delay ≤ (step s op).1.delay := by
     cases hc : cancel s caller id r rr with
     | none => exact Nat.le_refl _
     | some s' => obtain ⟨b, _, _, _, _, rfl⟩ := cancel_some hc; exact Nat.le_refl _
+  | cancelb now caller r rr ids =>
+    simp only [step]
+    cases hc : cancelBatch s caller r rr ids with
+    | none => exact Nat.le_refl _
+    | some s' => obtain ⟨_, hd, _⟩ := cancelBatch_some ids hc; rw [hd]; exact Nat.le_refl _
   | exec now caller id r rr =>
     simp only [step]
     cases hc : exec s now caller id r rr with
@@ -348,7 +411,7 @@ theorem delay_step (s : St) (op : Op) : s.delay ≤ (step s op).1.delay := by
 /-! ### counting events of one buffer id -/
 
 def isCreated (id : Nat) : Event → Bool | .created i _ => i == id | _ => false
-def isClosed (id : Nat) : Event → Bool | .cancelled i => i == id | .executed i _ => i == id | _ => false
+def isClosed (id : Nat) : Event → Bool | .cancelled i => i == id | .cancelledBatch ids => ids.contains id | .executed i _ => i == id | _ => false
 def isApproved (id : Nat) : Event → Bool | .approved i _ => i == id | .approvedBatch ids _ => ids.contains id | _ => false
 
 def openCount (s : St) (id : Nat) : Nat := if (s.bufs id).isSome then 1 else 0
@@ -420,6 +483,15 @@ theorem step_counts (s : St) (op : Op) (id : Nat) :
       · subst hi; simp [step, hc, isClosed, isCreated, isApproved, openCount, pendingCount, bufs_setBuf, hb]
       · have : id ≠ i := fun h => hi h.symm
         simp [step, hc, isClosed, isCreated, isApproved, openCount, pendingCount, bufs_setBuf, hi, this]
+  | cancelb now caller r rr ids =>
+    rcases Option.eq_none_or_eq_some (cancelBatch s caller r rr ids) with hc | ⟨s', hc⟩
+    · simp [step, hc, isClosed, isCreated, isApproved]
+    · obtain ⟨_, _, _, hin, hout, _⟩ := cancelBatch_some ids hc
+      by_cases hi : id ∈ ids
+      · obtain ⟨b, hb, _, _, hs'⟩ := hin id hi
+        simp [step, hc, isClosed, isCreated, isApproved, openCount, pendingCount, hb, hs', hi]
+      · have e := hout id hi
+        simp [step, hc, isClosed, isCreated, isApproved, openCount, pendingCount, e, hi]
   | exec now caller i r rr =>
     rcases Option.eq_none_or_eq_some (exec s now caller i r rr) with hc | ⟨p, hc⟩
     · simp [step, hc, isClosed, isCreated, isApproved]
@@ -508,6 +580,16 @@ theorem ginv_step {g : GSt} (h : GInv g) (op : Op) : GInv (gstep g op).1 := by
       split at hb
       · cases hb
       · exact h id b hb hap
+  | cancelb now caller r rr ids =>
+    rcases Option.eq_none_or_eq_some (cancelBatch g.s caller r rr ids) with hc | ⟨s', hc⟩
+    · intro id b hb; simp only [gstep, step, hc] at hb ⊢; exact h id b hb
+    · obtain ⟨_, _, _, hin, hout, _⟩ := cancelBatch_some ids hc
+      intro id b hb hap
+      simp only [gstep, step, hc] at hb ⊢
+      by_cases hi : id ∈ ids
+      · obtain ⟨b0, _, _, _, hs'⟩ := hin id hi
+        rw [hs'] at hb; cases hb
+      · rw [hout id hi] at hb; exact h id b hb hap
   | exec now caller i r rr =>
     rcases Option.eq_none_or_eq_some (exec g.s now caller i r rr) with hc | ⟨p, hc⟩
     · intro id b hb; simp only [gstep, step, hc] at hb ⊢; exact h id b hb
